@@ -724,8 +724,15 @@ func pkgVarFacts() {
 func main() {
 	out := flag.String("out", "", "output Lean file")
 	outConc := flag.String("out-conc", "", "second output Lean file: the C14 facts (PV.FactsConc); not written when empty")
+	outAst := flag.String("out-ast", "", "third output Lean file: source text of the node/list primitives (PV.FactsAst); not written when empty")
 	flag.StringVar(&repo, "repo", "/repo", "repository root")
 	flag.Parse()
+	if *outAst != "" {
+		if err := writeAstFacts(*outAst); err != nil {
+			fmt.Fprintln(os.Stderr, err)
+			os.Exit(1)
+		}
+	}
 	memoizeFacts()
 	cacheFacts()
 	seqFacts()
